@@ -303,6 +303,43 @@ def check(case):
             check_round(case, state)
         except PropertyViolation as v:
             raise PropertyViolation("after-refused-calls-and-many-batches:" + v.bucket, "after refused gradient calls (caught) and gradients for 36 other bases arrays on the same object: " + v.message, v.detail)
+    if not r.get("excluded") and case["split"] % 3 == 1 and case["state"]["n"] <= 3:
+        # re-entrant use: the exact gradients (and the positive phase) asked for - twice - from INSIDE the callbacks of a running fit on the
+        # same data: each answer must be the gradient at the parameters the model has at that moment
+        from qucumber.callbacks import LambdaCallback
+        sc_ = case["state"]
+        n_, t_ = sc_["n"], sc_["type"]
+        rows_, probs_ = born_rows(case, with_probs=True)
+        smp_ = R.rows_from_indices([k_ for _, k_ in rows_], n_)
+        bas_ = np.array([list(b_) for b_, _ in rows_]).reshape(len(rows_), n_)
+        sp_ = state.generate_hilbert_space()
+        BB_ = {"bases_batch": bas_} if t_ != "positive" else {}
+        seen_ = []
+
+        def look(s_):
+            nets_ = {"am": {k_: v_.tolist() for k_, v_ in gen.net_of(s_.rbm_am).items()}}
+            if t_ != "positive":
+                nets_["ph"] = {k_: v_.tolist() for k_, v_ in gen.net_of(s_.rbm_ph).items()}
+            g1_ = s_.compute_exact_gradients(smp_.clone(), sp_, **BB_)
+            g2_ = s_.compute_exact_gradients(smp_.clone(), sp_, **BB_)
+            pp_ = s_.positive_phase_gradients(smp_.clone(), **BB_)
+            seen_.append((nets_, [g_.clone() if isinstance(g_, torch.Tensor) else g_ for g_ in g1_], [g_.clone() if isinstance(g_, torch.Tensor) else g_ for g_ in g2_],
+                          [g_.clone() if isinstance(g_, torch.Tensor) else g_ for g_ in pp_]))
+        guard_, div_ = gen.divergence_guard()
+        state.fit(smp_.clone(), epochs=2, pos_batch_size=2, lr=0.01, callbacks=[LambdaCallback(on_batch_end=lambda s_, e_, b_: look(s_), on_epoch_start=lambda s_, e_: look(s_)), guard_],
+                  **({"input_bases": bas_} if t_ != "positive" else {}))
+        state.stop_training = False
+        if not div_[0]:
+            for j_, (nets_, g1_, g2_, pp_) in enumerate(seen_[1:4]):
+                sc_now = dict(sc_, **nets_)
+                _, pr_now = born_rows(dict(case, state=sc_now), with_probs=True) if False else (None, probs_)
+                ref_full = ref_grads(sc_now, rows_, with_Z=True)
+                cmp_grads(state, g1_, ref_full, f"inside-fit-callback:compute_exact_gradients(look #{j_})")
+                cmp_grads(state, g2_, ref_full, f"inside-fit-callback:compute_exact_gradients-second-call(look #{j_})")
+                cmp_grads(state, pp_, ref_grads(sc_now, rows_, with_Z=False), f"inside-fit-callback:positive_phase_gradients(look #{j_})")
+        gen.set_net(state.rbm_am, sc_["am"])
+        if sc_.get("ph"):
+            gen.set_net(state.rbm_ph, sc_["ph"])
     if case["state"].get("unitaries2"):
         # history: the state loads a file written by a twin with the same parameters but OTHER user unitaries for the same letters;
         # from then on gradients in rotated bases must follow the loaded dictionary
